@@ -63,6 +63,7 @@ fixed("FX-C09-08", "C09", "e35cc2f", "a >500-byte document with ill-formed UTF-8
 fixed("FX-C05-04", "C05", "13c8293", "a Decoder fed 3 bytes at a time accepted {\"A\":\"\",\" \\\"  :  2933322023 } (unterminated key): refill right behind a backslash in an unknown struct key resumed on the escaped byte (found by the chunked stream entries added to C05 for seeded change C05c)")
 fixed("FX-C10-04", "C10", "4f16a78", "32 goroutines encoding []T of a recursive T (or a struct with an interface member) for the first time under GC pressure: the programs of the goroutines that lost the cache publication were collected while running a nested program (return address held as uintptr only): 'encoder: opcode  has not been implemented', wrong output, 'found bad pointer in Go heap', SIGSEGV in vm.Run; present in the original tree")
 fixed("FX-C05-05", "C05", "189c5fc", "Valid(\"\\\"\\\\uZZZZ\\\"\") was true: the stream string decoder did not check the hex digits of \\u escapes (was KF-C05-08, KF-C18-V08, KF-C09-R04)")
+fixed("FX-C07-05", "C07", "8eeaac1", "{\"A\":null} into struct{A level; B [7]byte} (level: int8 with UnmarshalText) zeroed B: the TextUnmarshaler decoder stored a pointer-sized nil on null whatever the destination type (noticed by the seeded-change agent for C07, wave 4)")
 fixed("FX-C15-01", "C15", "57be1d1", "Decoder fed 5-byte chunks failed on fully \\u-escaped keys")
 
 fixed("FX-C06-04", "C06", "0243e9f", "Compact/Indent of a 100000-deep tower: fatal out of memory / stack overflow (no nesting limit)")
